@@ -92,7 +92,7 @@ def validate_total(mod, pid: str, records: list[dict], trace_path: pathlib.Path,
         while stack:
             chunk = stack.pop()
             runs += 1
-            if runs > 60 + len(records) // 2:
+            if runs > 60 + min(len(records) // 2, 240):
                 raise first
             p = work / f"bisect-{runs}.ndjson"
             write_trace(chunk, p)
